@@ -292,14 +292,27 @@ def worldEnv : W.Env where
   enumText i := Hash.unpack 256 (enumArr.getD i 0)
   enumOf b := Hash.fromBytesA hashParams Enum.table enumArr b
   elemText i := Hash.unpack 256 (elemArr.getD i 0)
+  attrText i := Hash.unpack 256 (attrArr.getD i 0)
+  nmIndex := (Hash.fromBytesA hashParams Elem.table elemArr [73, 78, 68, 69, 88]).getD 0
+  nmDefinitionRef := (Hash.fromBytesA hashParams Elem.table elemArr [68, 69, 70, 73, 78, 73, 84, 73, 79, 78, 45, 82, 69, 70]).getD 0
   latest := versionTable.latest
   nmDest := realSpec.atDest
+
+def strBytes (s : String) : Bytes := s.toUTF8.toList
+
+/-- attributes of the root element as `AutosarModel::new` sets them -/
+def rootAttrs : List (Nat × W.CDv) :=
+  let a (n : String) : Nat := (Hash.fromBytesA hashParams Attr.table attrArr (strBytes n)).getD 0
+  let latestFile : Bytes := ((versionTable.fileNameOf versionTable.latest).getD []).map UInt8.ofNat
+  [(a "xsi:schemaLocation", .str (strBytes "http://autosar.org/schema/r4.0 " ++ latestFile)),
+   (a "xmlns", .str (strBytes "http://autosar.org/schema/r4.0")),
+   (a "xmlns:xsi", .str (strBytes "http://www.w3.org/2001/XMLSchema-instance"))]
 
 partial def loop (S : Spec) (w : W.World) (h : IO.FS.Stream) (out : IO.FS.Stream) : IO Unit := do
   let line ← h.getLine
   if line.isEmpty then return ()
   let ws := (line.trimAscii.toString.splitOn " ").filter (· ≠ "")
-  match WDriver.step S worldEnv (fun v => versionTable.values.contains v) w ws with
+  match WDriver.step S worldEnv (fun v => versionTable.values.contains v) rootAttrs w ws with
   | some (w', ans) =>
     out.putStrLn ans
     loop S w' h out
